@@ -227,7 +227,12 @@ class _Lagrangian:
             estimator = clone(estimator=self.estimator, safe=False)
 
         oracle_call_start_time = time()
-        estimator.fit(self.constraints.X, redY, **{self.sample_weight_name: redW})
+        if len(redY_unique) == 1:
+            # A constant predictor does not depend on the sample weights, which are
+            # NaN here when every signed weight is zero (0 / 0 in the normalization).
+            estimator.fit(self.constraints.X, redY)
+        else:
+            estimator.fit(self.constraints.X, redY, **{self.sample_weight_name: redW})
         self.oracle_execution_times.append(time() - oracle_call_start_time)
         self.n_oracle_calls += 1
 
